@@ -135,3 +135,140 @@ Proof.
   - apply seq_sorted.
   - eapply Permutation_trans; [apply Permutation_map; apply sort_kv_perm|exact Hp].
 Qed.
+
+(* ------------------------------------------------------------------------------------------
+   EXTRACTION ORDER (C07, first half): the k-th extracted RPU is the RPU of the frame displayed
+   k-th.  RPUs are collected in decode order (the d-th collected RPU belongs to the frame with
+   decoded index d) and written sorted by the presentation number of that frame.
+   ------------------------------------------------------------------------------------------ *)
+Definition pres_of (fs : list frame) (d : N) : N :=
+  match frame_of_dec fs d with Some f => f_pres f | None => 0 end.
+
+Lemma sort_kv_value {A} (kv : list (N * A)) :
+  Permutation (map fst kv) (map N.of_nat (seq 0 (List.length kv))) ->
+  forall k v, In (k, v) kv -> nth_error (map snd (sort_kv kv)) (N.to_nat k) = Some v.
+Proof.
+  intros Hp k v Hin.
+  pose proof (sort_kv_positions A kv Hp) as Hpos.
+  assert (Hin' : In (k, v) (sort_kv kv)) by (eapply Permutation_in; [apply Permutation_sym, sort_kv_perm|exact Hin]).
+  apply In_nth_error in Hin'. destruct Hin' as [i Hi].
+  assert (Hk : nth_error (map fst (sort_kv kv)) i = Some k) by (rewrite nth_error_map, Hi; reflexivity).
+  rewrite Hpos in Hk.
+  assert (Hil : (i < List.length kv)%nat).
+  { assert (nth_error (map N.of_nat (seq 0 (List.length kv))) i <> None) by congruence.
+    apply nth_error_Some in H. rewrite map_length, seq_length in H. exact H. }
+  rewrite nth_error_map, nth_error_nth' with (d := 0%nat) in Hk by (rewrite seq_length; exact Hil).
+  rewrite seq_nth in Hk by exact Hil. cbn in Hk. inversion Hk; subst k.
+  rewrite Nat2N.id. rewrite nth_error_map, Hi. reflexivity.
+Qed.
+
+Lemma keyed_spec {A} fs : forall (l : list A) k kv, keyed fs k l = Ok kv ->
+  List.length kv = List.length l /\
+  map fst kv = map (fun i => pres_of fs (k + N.of_nat i)) (seq 0 (List.length l)) /\
+  forall i r, nth_error l i = Some r -> In (pres_of fs (k + N.of_nat i), r) kv.
+Proof.
+  induction l as [|x t IH]; intros k kv H; cbn [keyed] in H.
+  - inversion H; subst. split; [reflexivity|]. split; [reflexivity|]. intros i r Hi. destruct i; discriminate.
+  - destruct (frame_of_dec fs k) as [f|] eqn:Ef; [|discriminate].
+    destruct (keyed fs (k + 1) t) as [r0| |s] eqn:Er; cbn [bind] in H; try discriminate.
+    inversion H; subst kv. destruct (IH _ _ Er) as (Hl & Hm & Hin).
+    assert (Hp : pres_of fs k = f_pres f) by (unfold pres_of; rewrite Ef; reflexivity).
+    split; [cbn; lia|]. split.
+    + cbn [List.length seq map fst]. rewrite N.add_0_r, Hp. f_equal. rewrite Hm.
+      rewrite <- seq_shift, map_map. apply map_ext. intros i. f_equal. lia.
+    + intros [|i] r Hi; cbn [nth_error] in Hi.
+      * inversion Hi; subst. left. rewrite N.add_0_r, Hp. reflexivity.
+      * right. replace (k + N.of_nat (S i)) with (k + 1 + N.of_nat i) by lia. apply Hin. exact Hi.
+Qed.
+
+Theorem extract_order_correct {A} (fs : list frame) (rpus out : list A) :
+  extract_order fs rpus = Ok out ->
+  Permutation (map (fun i => pres_of fs (N.of_nat i)) (seq 0 (List.length rpus))) (map N.of_nat (seq 0 (List.length rpus))) ->
+  List.length out = List.length rpus /\
+  forall d r, nth_error rpus d = Some r -> nth_error out (N.to_nat (pres_of fs (N.of_nat d))) = Some r.
+Proof.
+  unfold extract_order. destruct fs as [|f0 fs0]; [discriminate|]. set (fs := f0 :: fs0).
+  destruct (keyed fs 0 rpus) as [kv| |s] eqn:Ek; cbn [bind]; try discriminate.
+  intros H Hp. inversion H; subst out. clear H.
+  destruct (keyed_spec fs _ _ _ Ek) as (Hl & Hm & Hin).
+  assert (Hperm : Permutation (map fst kv) (map N.of_nat (seq 0 (List.length kv)))).
+  { rewrite Hm, Hl. erewrite map_ext; [exact Hp|]. intros i. reflexivity. }
+  split.
+  - rewrite map_length. erewrite Permutation_length; [|apply sort_kv_perm]. exact Hl.
+  - intros d r Hd. apply sort_kv_value; [exact Hperm|]. specialize (Hin d r Hd). rewrite N.add_0_l in Hin. exact Hin.
+Qed.
+
+(* ------------------------------------------------------------------------------------------
+   INJECTION (C07, second half): when a frame is flushed it gets the RPU whose position in the
+   input list is the frame's presentation number, placed after every NAL of the frame except a
+   trailing run of EOS / EOB NALs; the other NALs keep their order.
+   ------------------------------------------------------------------------------------------ *)
+Lemma ok_inj_o {A} (a b : A) : Ok a = Ok b -> a = b.
+Proof. intros H; inversion H; reflexivity. Qed.
+
+Lemma rposition_spec : forall l k, rposition_non_eos l = Some k ->
+  (k < List.length l)%nat /\
+  (exists y, nth_error l k = Some y /\ is_eos (fst y) = false) /\
+  Forall (fun x => is_eos (fst x) = true) (skipn (S k) l).
+Proof.
+  induction l as [|x t IH]; intros k H; cbn [rposition_non_eos] in H; [discriminate|].
+  destruct (rposition_non_eos t) as [k'|] eqn:E.
+  - inversion H; subst k. destruct (IH k' eq_refl) as (Hl & Hy & Hf). split; [cbn; lia|]. split; [exact Hy|exact Hf].
+  - destruct (is_eos (fst x)) eqn:Ex; [discriminate|]. inversion H; subst k. split; [cbn; lia|]. split.
+    + exists x. split; [reflexivity|exact Ex].
+    + cbn [skipn]. clear -E. induction t as [|y t IHt]; [constructor|]. cbn [rposition_non_eos] in E.
+      destruct (rposition_non_eos t); [discriminate|]. destruct (is_eos (fst y)) eqn:Ey; [|discriminate].
+      constructor; [exact Ey|apply IHt; reflexivity].
+Qed.
+
+Lemma insert_at_split {A} (x : A) : forall k l, (k <= List.length l)%nat -> insert_at k x l = firstn k l ++ x :: skipn k l.
+Proof.
+  induction k as [|k IH]; intros l H; [reflexivity|]. destruct l as [|y t]; [cbn in H; lia|].
+  cbn [insert_at firstn skipn app]. f_equal. apply IH. cbn in H. lia.
+Qed.
+
+Lemma framing_keeps_data (g : nat -> N -> N) : forall (l : list (N * list N)) n,
+  map snd (map (fun '(i, (t, d)) => (g i t, d)) (combine (seq n (List.length l)) l)) = map snd l.
+Proof.
+  induction l as [|[t0 d0] l IH]; intros n; cbn [List.length seq combine map]; [reflexivity|]. cbn [snd]. f_equal. apply IH.
+Qed.
+
+Theorem flush_frame_correct p io fs rpus s s' f :
+  flush_frame p io fs rpus false s = Ok s' ->
+  frame_of_dec fs (fb_number s) = Some f ->
+  exists x d pre post,
+    (* the RPU is the one at the frame's presentation position *)
+    nth_error rpus (N.to_nat (f_pres f)) = Some x /\ write_hevc_unspec62_nalu p src_sw x = Ok d /\
+    (* the frame's NALs (behind the AUD when one is added) split around it *)
+    (if io_no_add_aud io then fb_nals s else (35, aud_for f) :: fb_nals s) = pre ++ post /\
+    pre <> [] /\
+    Forall (fun n => is_eos (fst n) = true) post /\
+    (exists y t, pre = t ++ [y] /\ is_eos (fst y) = false) /\
+    map snd (skipn (List.length (written s)) (written s')) = map snd (pre ++ (62, d) :: post) /\
+    firstn (List.length (written s)) (written s') = written s.
+Proof.
+  unfold flush_frame. intros H Hf. rewrite Hf in H.
+  set (buf := if io_no_add_aud io then fb_nals s else (35, aud_for f) :: fb_nals s).
+  assert (Hbuf : (if io_no_add_aud io then Ok (fb_nals s) else Ok ((35, aud_for f) :: fb_nals s)) = Ok buf)
+    by (unfold buf; destruct (io_no_add_aud io); reflexivity).
+  rewrite Hbuf in H. cbn [bind] in H.
+  destruct (nth_error rpus (N.to_nat (f_pres f))) as [x|] eqn:Ex; [|discriminate].
+  destruct (write_hevc_unspec62_nalu p src_sw x) as [d| |e] eqn:Ed; cbn [bind] in H; try discriminate.
+  destruct (rposition_non_eos buf) as [k|] eqn:Ek; [|discriminate].
+  apply ok_inj_o in H. subst s'. cbn [written].
+  destruct (rposition_spec _ _ Ek) as (Hl & (y & Hy & Hne) & Hpost).
+  rewrite (insert_at_split _ (S k) buf) by lia.
+  exists x, d, (firstn (S k) buf), (skipn (S k) buf).
+  split; [reflexivity|]. split; [exact Ed|]. split; [symmetry; apply firstn_skipn|].
+  assert (Hpre : firstn (S k) buf = firstn k buf ++ [y]).
+  { clear -Hy. revert k Hy. induction buf as [|z t IH]; intros [|k] Hy; cbn in *; try discriminate.
+    - inversion Hy. reflexivity.
+    - f_equal. apply IH. exact Hy. }
+  split; [rewrite Hpre; destruct (firstn k buf); discriminate|].
+  split; [exact Hpost|].
+  split; [exists y, (firstn k buf); split; [exact Hpre|exact Hne]|].
+  split.
+  - rewrite skipn_app, skipn_all, Nat.sub_diag. cbn [app skipn].
+    apply (framing_keeps_data (fun i t => sc_len (io_annexb io) t (Nat.eqb i 0))).
+  - rewrite firstn_app, Nat.sub_diag, firstn_all. cbn [firstn]. apply app_nil_r.
+Qed.
